@@ -247,16 +247,17 @@ Lemma last_bal_length : forall cb ts, length (last_bal cb ts) = length ts.
 Proof. intros [b|] ts; simpl; auto using set_last_balance_length. Qed.
 
 (* ---- import of a single statement ---- *)
-Lemma import_single : forall cfg st txns,
-  import cfg [st] = inl txns ->
-  exists ts, entries_txns cfg (stmt_order cfg st) = inl ts /\
-             txns = opening_of st ++ last_bal (find_balance (st_balances st) CLBD) ts.
+Lemma import_single_eq : forall cfg st,
+  import cfg [st] =
+  match entries_txns cfg (stmt_order cfg st) with
+  | inl ts => inl (opening_of st ++ last_bal (find_balance (st_balances st) CLBD) ts)
+  | inr e => inr e
+  end.
 Proof.
-  intros cfg st txns. unfold import. cbn [import_from]. unfold import_stmt.
+  intros cfg st. unfold import. cbn [import_from]. unfold import_stmt.
   fold (opening_of st). fold (stmt_order cfg st).
-  destruct (entries_txns cfg (stmt_order cfg st)) as [ts|] eqn:E; [|discriminate].
-  intros H. inversion H. clear H. exists ts. split; [reflexivity|].
-  cbn [app].
+  destruct (entries_txns cfg (stmt_order cfg st)) as [ts|] eqn:E; [|reflexivity].
+  f_equal. cbn [app].
   destruct ts as [|t r].
   - (* no entries: no opening either *)
     assert (S : st_entries st = []).
@@ -268,6 +269,16 @@ Proof.
       destruct (find_balance (st_balances st) CLBD); reflexivity.
   - destruct (find_balance (st_balances st) CLBD) as [cb|]; [|reflexivity].
     cbn [last_bal]. apply set_last_balance_app. discriminate.
+Qed.
+
+Lemma import_single : forall cfg st txns,
+  import cfg [st] = inl txns ->
+  exists ts, entries_txns cfg (stmt_order cfg st) = inl ts /\
+             txns = opening_of st ++ last_bal (find_balance (st_balances st) CLBD) ts.
+Proof.
+  intros cfg st txns. rewrite import_single_eq.
+  destruct (entries_txns cfg (stmt_order cfg st)) as [ts|]; [|discriminate].
+  intros H. inversion H. exists ts. auto.
 Qed.
 
 Lemma import_single_units : forall cfg st txns,
